@@ -40,7 +40,7 @@ MergeCases == UNION {{[kind |-> "merge", t |-> t, regs |-> SetToSeq(r), customs 
 \* tolerant decoding: field kind x JSON form
 Forms == [ aud     |-> {"string", "array", "emptyarray", "null", "number", "object", "bool", "arrayNonString", "nestedArray"},
            time    |-> {"number", "float", "negnumber", "rfc3339", "badstring", "null", "bool", "object", "array", "bigfloat", "numericString"},
-           locale  |-> {"tag", "emptyString", "unknownTag", "malformedTag", "number", "null", "object"},
+           locale  |-> {"tag", "emptyString", "unknownTag", "unknownSubtag", "unknownScript", "unknownLang", "malformedTag", "number", "null", "object"},
            locales |-> {"spaceDelimited", "array", "withUnknown", "emptyString", "null", "number", "object", "arrayNonString"},
            bool    |-> {"true", "stringTrue", "false", "stringFalse", "stringOther", "number", "null", "object"},
            sda     |-> {"string", "single", "emptyString", "array", "null", "number"} ]
@@ -71,6 +71,8 @@ RulesMerge(c, o) ==
     <<"C12.merge.noInvention",    \A n \in Probes[c.t] \ (Range(c.regs) \cup Range(c.customs)) : o.src[n] \in {"absent", "zero"}>>,
     <<"C12.merge.extraSurvives",  o.extra = "kept">>,
     <<"C12.roundtrip.stable",     o.stable>>,
+    \* the document returned by MarshalJSON belongs to the caller: encoding another value does not change it
+    <<"C12.marshal.owned",        o.owned>>,
     <<"C12.roundtrip.values",     \A n \in Probes[c.t] : o.back[n] = o.src[n]>>,
     <<"C09.nopanic", ~o.panic>> }
 
@@ -95,7 +97,7 @@ Good(c) ==
   CASE c.kind = "merge" ->
          LET src == [n \in Probes[c.t] |-> IF n \in Range(c.regs) THEN "reg" ELSE IF n \in Range(c.customs) THEN (IF n \in NonOmit[c.t] THEN "zero" ELSE "custom")
                                            ELSE IF n \in NonOmit[c.t] THEN "zero" ELSE "absent"] IN
-         [src |-> src, back |-> src, extra |-> "kept", stable |-> TRUE, panic |-> FALSE]
+         [src |-> src, back |-> src, extra |-> "kept", stable |-> TRUE, owned |-> TRUE, panic |-> FALSE]
     [] c.kind = "decode" -> [v |-> IF c.form \in Documented[c.field] THEN "value" ELSE "error"]
     [] OTHER -> [open |-> IF c.key = "same" THEN "plain" ELSE "different", fresh |-> TRUE]
 Outcomes(c) == {Good(c)}
